@@ -95,6 +95,15 @@ def programs():
               [('reset', 'eviction_policy', 'least-recently-stored'), ('reset', 'cull_limit', 3), ('reset', 'size_limit', 1),
                ('set', 'f1', S('f1', True)), ('add', 'f2', L('f2', True)), ('push', S('f3', True), None, 'back'),
                ('incr', 'cnt', 1), ('block', [('set', 'f4', S('f4', True)), ('set', 'f5', S('f5'))]), ('cull',)]))
+    # bulk removals of file-backed items INSIDE a block: nothing of them may happen before the block's own COMMIT
+    P.append(('cache', None,
+              [('set', 't%d' % i, S('t%d' % i, True), {'tag': 't'}) for i in range(5)] + [('set', 'u0', S('u0', True)), ('set', 'u1', S('u1'))],
+              [('block', [('evict', 't'), ('set', 'x', S('x', True))]), ('block', [('set', 'y', S('y')), ('expire',)]),
+               ('block', [('clear',), ('set', 'z', S('z', True))])]))
+    P.append(('deque', None, [('append', S('d%d' % i, i % 2 == 0)) for i in range(4)],
+              [('block', [('clear',), ('append', S('n0', True))]), ('block', [('appendleft', S('n1', True)), ('clear',)])]))
+    P.append(('index', None, [('setitem', 'i%d' % i, S('i%d' % i, i % 2 == 0)) for i in range(4)],
+              [('block', [('clear',), ('setitem', 'n', S('n', True))])]))
     P.append(('deque', 5, [('append', S('d%d' % i, i % 2 == 0)) for i in range(5)],
               [('maxlen', 2), ('remove', crash.payload('d4', True)), ('maxlen', 4), ('extendleft', [1, 2, 3])]))
     P.append(('deque', 2, [('append', S('d0', True)), ('append', S('d1', True))],
